@@ -123,7 +123,15 @@ RULE = ("files: per format 4 (quick) / 6 (thorough) synthesised files with 1-5 s
         "list failing part-way, clear / add / update / copy / export / to_dataframe rejected, data file gone from disk, rejected "
         "set_dtg_ref / modify / resample / filter on a series handed out) is made on the same database in random order, each followed by "
         "2-3 retrievals (index / current name / '*', stored 40%), an accepted rename after every ninth, then the registry rounds with "
-        "1-2 refused calls after every change; every call on a database runs in a worker thread with a time limit")
+        "1-2 refused calls after every change; every call on a database runs in a worker thread with a time limit; "
+        "eighth round (stream `long`, c01_long.py, oracles only): per format 2-4 (quick) / 16 (thorough) LONG files of 2-4 series with "
+        "999 / 1000 / 1001 / 1023 / 1024 / 1025 / 4095 / 4096 / 4097 / 9999 / 10000 / 10001 / 65535 / 65536 / 65537 / 70001 samples "
+        "(quick: one size around 1000 / 1024 per format, one of each of the bands around 4096 / 10000 / 65536 for ts tda h5 pkl mat tdms, one of one of them for bin asc dat csv), column-specific sequences with full double mantissas (integers in the float32 formats) "
+        "and spikes in the first / last samples and around every multiple of 1000 / 1024 / 4096 / 10000 / 65536, and per format one "
+        "(quick) / 7 (thorough) WIDE files with 33 / 65 / 129 / 300 (31 / 64 / 257) series in non-alphabetical order (s1, s10, s100 "
+        "...); requests: last name alone, all reversed, first / last index, random subsets by name / key / index, the series at "
+        "positions 31-33 / 63-65 / 127-129 / 255-257 / first / last, '*', a cached repeat; every sample of every returned series "
+        "is compared with what was written")
 
 TDA_KEY_HEAD = """** Info about series written by SIMO-S2XMOD
 ** 26-NOV-2016 20:59
@@ -2200,6 +2208,8 @@ def run(chk):
     drv = core.Driver()
     from .c01_gaps import run_gaps
     run_gaps(chk)               # files holding missing values (empty csv cells, nan in text / binary containers): value oracle
+    from .c01_long import run_long
+    run_long(chk)               # long (999 ... 70001 samples) and wide (33 ... 300 series) files of every format: value oracle
     root = tempfile.mkdtemp(prefix="qv01_")
     try:
         # ---- files
@@ -2421,6 +2431,9 @@ def replay(rp):
     if inp.get("kind") == "gaps":
         from .c01_gaps import replay_gaps
         return replay_gaps(inp)
+    if inp.get("kind") == "long":
+        from .c01_long import replay_long
+        return replay_long(inp)
     root = tempfile.mkdtemp(prefix="qv01r_")
     try:
         specs, ops = inp["specs"], inp["ops"]
